@@ -137,6 +137,15 @@ def handle : List String → String
     | some f, some hash, some flags, some ident, some req, some ent, some entDER =>
       showRes (sign f (mkSignParams hash flags ident req ent entDER)) (signLine f)
     | _, _, _, _, _, _, _ => "bad-op"
+  | ["signguard", fhex, hash, entlen] =>
+    -- the size test of `machos.Sign` (fix F-MACHO-3) around 10^7: an entitlement of `entlen` bytes (supplied by the harness;
+    -- only its length enters `plan`) and the 12-byte empty requirement set.  The verdict is the one the theorems give for a
+    -- regular image: `macho_sign_then_locate` below 10^7 (`regular_small`), `large_signature_refused` above.
+    match fromHex fhex, hash.toNat?, entlen.toNat? with
+    | some f, some hash, some n =>
+      showRes (plan f (hashSizeOf hash) n 12) fun pl =>
+        s!"ok ss={pl.po.sigStart} sbl={pl.po.sigBufLen} verify={if pl.po.sigBufLen ≤ 10000000 then "ok" else "fail:toolarge"}"
+    | _, _, _ => "bad-op"
   | ["realsign", fhex, _key] =>
     -- the signer module: hardened runtime, SHA-256, default requirements (computed after the size estimate)
     match fromHex fhex with
